@@ -173,11 +173,12 @@ def static_facts():
         return re.findall(r'^\s*"((?:[^"\\]|\\.)*)"', m.group(1), flags=re.M) if m else []
     readers = lst(gen, "secretReaders")
     allowed = lst(model, "allowedReaders")
+    only_reconciling = set(re.findall(r'"([^"]+)"', (re.search(r"def reconcileReaders : List String := \[(.*?)\]", model, flags=re.S) or [None, ""])[1]))
     m = re.search(r"def secretSinks : List String := \[(.*)\]", gen)
     sinks = re.findall(r'"((?:[^"\\]|\\.)*)"', m.group(1)) if m else []
     m = re.search(r"def secretFunctionsAnalysed : Nat := (\d+)", gen)
     return {"functions_analysed": int(m.group(1)) if m else 0, "secret_readers": len(readers),
-            "readers_not_on_allow_list": sorted(set(readers) - set(allowed)), "allow_list_entries_without_reader": sorted(set(allowed) - set(readers)),
+            "readers_not_on_allow_list": sorted(set(readers) - set(allowed)), "allow_list_entries_without_reader": sorted(set(allowed) - set(readers) - (only_reconciling if not (only_reconciling & set(readers)) else set())),
             "secret_sinks": sinks,
             "save_call_sites": re.findall(r'^\s*\("([^"]+)", "([^"]+)", "([^"]+)", (true|false)\)', gen, flags=re.M),
             "file_creators": len(lst(gen, "fileCreators"))}
